@@ -53,6 +53,9 @@ func aliasEqual(b numscript.Balances) numscript.Balances {
 	seen := map[string]*big.Int{}
 	for _, a := range sortedKeys(b) {
 		for _, c := range sortedKeys(b[a]) {
+			if b[a][c] == nil {
+				continue
+			}
 			k := b[a][c].String()
 			if p, ok := seen[k]; ok {
 				b[a][c] = p
@@ -115,6 +118,13 @@ func (s *testStore) GetBalances(ctx context.Context, q numscript.BalanceQuery) (
 		for _, c := range cs {
 			v, ok := s.bal[a][c]
 			if s.kind == skSparse && (!ok || v.Sign() == 0) {
+				if (len(a)+len(c))%2 == 0 {
+					// "nothing to say" written as a nil amount instead of a missing entry: the same thing for a caller
+					if out[a] == nil {
+						out[a] = numscript.AccountBalance{}
+					}
+					out[a][c] = nil
+				}
 				continue
 			}
 			if out[a] == nil {
@@ -267,7 +277,7 @@ func runImpl(text string, vars map[string]string, st numscript.Store, flag bool)
 	if flag {
 		flags = map[string]struct{}{interpreter.ExperimentalOverdraftFunctionFeatureFlag: {}}
 	}
-	if ts, ok := st.(*testStore); ok && len(text)%2 == 0 {
+	if ts, ok := st.(*testStore); ok && (len(text)%2 == 0 || ts.kind == skStatic && strings.Contains(text, "set_account_meta")) {
 		// one case in two: the parsed program has ALREADY been run once, with other amounts in its
 		// variables and against a copy of the store - a parsed program keeps nothing from a run
 		func() {
